@@ -240,8 +240,7 @@ impl TreeBuilder {
     /// unexpected (ASSUMED frame): reports one parse error
     #[verifier::external_body]
     pub fn unexpected<T>(&mut self, _thing: &T) -> (r: ProcessResult)
-        ensures r is Done, final(self).same_but_stack(old(self)), final(self).stack() == old(self).stack(),
-                final(self).sink == (Sink { errs: Ghost(old(self).sink.errs@ + 1), ..old(self).sink }),
+        ensures r is Done, *final(self) == (TreeBuilder { sink: Sink { errs: Ghost(old(self).sink.errs@ + 1), ..old(self).sink }, ..*old(self) }),
     { unimplemented!() }
 }
 /// the local tag set of appropriate_place_for_insertion (rule R39, ASSUMED as for `implied`)
